@@ -12,6 +12,7 @@ mod rx_objstm;
 mod rx_prefix;
 mod registry;
 mod rx_dangling;
+mod rx_content;
 
 fn main() {
     let args: Vec<String> = std::env::args().collect();
@@ -32,6 +33,7 @@ fn main() {
         "objstm" => rx_objstm::run(&args[2], &args[3], &opts),
         "prefix" => rx_prefix::run(&args[2], &args[3], &opts),
         "dangling" => rx_dangling::run(&args[2], &args[3], &opts),
+        "content" => rx_content::run(&args[2], &args[3], &opts),
         "cache" => rx_cache::run(&args[2], &args[3], &opts),
         "widths" => rx_font::run_widths(&args[2], &args[3], &opts),
         "cmap" => rx_font::run_cmap(&args[2], &args[3], &opts),
